@@ -183,4 +183,16 @@ typedef void (*kds_ext_all_sad)(uint8_t *src, uint32_t src_stride, uint8_t *ref,
 typedef void (*kds_ext_eight_sad)(uint32_t p_sad16x16[16][8], uint32_t *p_best_sad_32x32, uint32_t *p_best_sad_64x64,
                                   uint32_t *p_best_mv32x32, uint32_t *p_best_mv64x64, uint32_t mv, uint32_t p_sad32x32[4][8]);
 
+/* ---- restoration (kdiff_rest.c) */
+typedef void (*kds_wiener_conv)(const uint8_t *const src, const ptrdiff_t src_stride, uint8_t *const dst, const ptrdiff_t dst_stride,
+                                const int16_t *const filter_x, const int16_t *const filter_y, const int32_t w, const int32_t h,
+                                const ConvolveParams *const conv_params);
+typedef void (*kds_wiener_conv_hbd)(const uint8_t *const src, const ptrdiff_t src_stride, uint8_t *const dst, const ptrdiff_t dst_stride,
+                                    const int16_t *const filter_x, const int16_t *const filter_y, const int32_t w, const int32_t h,
+                                    const ConvolveParams *const conv_params, const int32_t bd);
+typedef void (*kds_sgr)(const uint8_t *dgd8, int32_t width, int32_t height, int32_t dgd_stride, int32_t *flt0, int32_t *flt1,
+                        int32_t flt_stride, int32_t sgr_params_idx, int32_t bit_depth, int32_t highbd);
+typedef void (*kds_sgr_apply)(const uint8_t *dat, int32_t width, int32_t height, int32_t stride, int32_t eps, const int32_t *xqd,
+                              uint8_t *dst, int32_t dst_stride, int32_t *tmpbuf, int32_t bit_depth, int32_t highbd);
+
 #endif
